@@ -10,6 +10,7 @@ Decided structural clauses:
  D6 only data that went through the out-of-range removal is classified
  D7 unlabelled samples are set aside: the first component returned by split_without_labels is the unlabelled part, and both
     consumers (learning initialisation, test_data) treat the first component as omitted and classify / learn on the second
+ D9 the hat evaluations behind the class densities count the centre of a hat exactly once (sa/hats.py)
  D8 the density evaluation memoises hat supports only for as long as everything the memoised value depends on stays fixed: a memo
     table whose values depend on more than its key (here: on the component grid's mesh) is created inside the call that uses it
 Not decided: that the arg-max index is the label, correctness of the densities."""
@@ -392,6 +393,11 @@ def run(prog, ctx):
     check_unlabelled_set_aside(prog, ctx)
     # ------------------------------------------------------------------ D8
     check_memo_lifetime(prog, ctx)
+    # ------------------------------------------------------------------ D9 (shared with C16.D7 / C17.D4 / C20.D6): the class densities are
+    # evaluated with the hat implementations of MachineLearning; a sample whose scaled coordinate coincides with a grid coordinate (the
+    # middle value of an ordinal feature) gets density 0 for every class when a hat loses its centre, and arg-max returns class 0
+    from ..hats import check_hat_centre
+    ctx.floor("C19.D9", check_hat_centre(prog, ctx, "C19.D9"), 3, "hat implementations analysed for the centre rule")
 
     # ------------------------------------------------------------------ D6
     n6 = 0
